@@ -140,6 +140,10 @@ class Var:
         self.private = private       # never address-taken / captured / global: calls cannot modify it
         self.assignable = assignable
         self.is_global = is_global
+        # []int only: another reference to (part of) its backing array may be live, so growing it in
+        # place or not would be observable; capacity growth is implementation-defined, hence appends
+        # to an aliased slice are emitted in the always-reallocating form append(v[:len(v):len(v)], ...)
+        self.aliased = False
 
 
 class Prof:
@@ -679,7 +683,8 @@ class FnGen:
                 self.emit("%s[%s] = %s" % (v.name, i, self.e_int("int", 1, PC())))
         elif kind == "app":
             n = 1 + r.below(2)
-            self.emit("%s = append(%s, %s)" % (v.name, v.name, ", ".join(self.e_int("int", 1, PC()) for _ in range(n))))
+            base = "%s[:len(%s):len(%s)]" % (v.name, v.name, v.name) if (v.aliased or self.in_closure > 0) else v.name
+            self.emit("%s = append(%s, %s)" % (v.name, base, ", ".join(self.e_int("int", 1, PC()) for _ in range(n))))
         elif kind == "sub":
             a = r.below(3)
             form = r.below(3)
@@ -701,7 +706,21 @@ class FnGen:
                 self.ind -= 1
                 self.emit("}")
             else:
-                self.new_var("[]int", e, private=False)
+                # never reslice beyond len (the capacity after a growing append is implementation-defined);
+                # v[e:] with an arbitrary e panics independently of the capacity
+                form = r.below(4)
+                ln = "len(%s)" % v.name
+                if form == 0:
+                    e = "%s[min(%d, %s):%s:%s]" % (v.name, a, ln, ln, ln)
+                elif form == 1:
+                    e = "%s[:min(%d, %s):min(%d, %s)]" % (v.name, a, ln, a, ln)
+                elif form == 2:
+                    e = "%s[min(%d, %s):min(%d, %s):min(%d, %s)]" % (v.name, a, ln, a + 2, ln, a + 2, ln)
+                else:
+                    e = "%s[%s:]" % (v.name, self.e_int("int", 1, PC()))
+                v.aliased = True
+                nv = self.new_var("[]int", e, private=False)
+                nv.aliased = True
         elif kind == "copy":
             o = r.choice(self.vars_of("[]int"))
             self.emit("obsI(copy(%s, %s))" % (v.name, o.name))
@@ -869,6 +888,7 @@ class FnGen:
                 self.pop()
                 return self.s_if(d)
             s = r.choice(c)
+            s.aliased = True   # the range expression is a live copy of the slice header
             i, x = self.fresh("i"), self.fresh("x")
             hdr = "for %s, %s := range %s {" % (i, x, s.name)
             self.declare(Var(i, "int", private=priv, assignable=False))
@@ -1295,7 +1315,9 @@ class FnGen:
             private = t in INT_RANGE or t in ("bool", "string")
             if private and r.chance(1, 3):
                 private = False
-            self.declare(Var(n, t, private=private))
+            pv = Var(n, t, private=private)
+            pv.aliased = True
+            self.declare(pv)
             ps.append("%s %s" % (n, t))
         if self.named:
             rs = []
@@ -1580,6 +1602,8 @@ class Program:
         self.entries = entries             # [(fname, [ptypes], [rtypes])]
         self.cases = cases                 # [(fname, ptypes, rtypes, vec)]
         self.origin = origin
+        self.modes = list(MODES)
+        self.resets = []                   # [(name, init literal)]: globals reset before each case but not printed
 
 
 def program_from_seed(name, seed, nvec, nentries=24):
@@ -1595,6 +1619,7 @@ import re as _re
 
 _ENTRY = _re.compile(r"^//c01:entry\s+(\w+)\(([^)]*)\)\s*(.*)$")
 _GLOBAL = _re.compile(r"^//c01:global\s+(\w+)\s+(\S+)\s+(.*)$")
+_RESET = _re.compile(r"^//c01:reset\s+(\w+)\s+(.*)$")
 
 
 def program_from_corpus(name, text, nvec, seed=12345):
@@ -1620,7 +1645,12 @@ def program_from_corpus(name, text, nvec, seed=12345):
     for (fname, pt, rt) in entries:
         for vec in PGen.vectors(vg, pt, nvec):
             cases.append((fname, pt, rt, vec))
-    return Program(name, text, gl, entries, cases, {"corpus": name})
+    pr = Program(name, text, gl, entries, cases, {"corpus": name})
+    pr.resets = [(m.group(1), m.group(2).strip()) for m in (_RESET.match(l) for l in text.splitlines()) if m]
+    m = _re.search(r"^//c01:modes\s+(\S+)", text, flags=_re.M)
+    if m:
+        pr.modes = m.group(1).split(",")
+    return pr
 
 
 def make_run(prog, pkg):
@@ -1628,6 +1658,8 @@ def make_run(prog, pkg):
     out = [MAIN_HEAD.replace("package main", "package %s" % pkg, 1)]
     out.append("func resetGlobals() {")
     for (n, t, init) in prog.global_inits:
+        out.append("\t%s = %s" % (n, init))
+    for (n, init) in prog.resets:
         out.append("\t%s = %s" % (n, init))
     out.append("}\n")
     names = sorted(n for (n, t, i) in prog.global_inits)
@@ -1686,7 +1718,7 @@ def build_and_run_batch(ctx, bdir, progs):
         calls.append('\tfmt.Println("##BEGIN %d")\n\t%s.Run()' % (i, pkg))
     with open(os.path.join(bdir, "main.go"), "w") as f:
         f.write("package main\n\nimport (\n\t\"fmt\"\n%s\n)\n\nfunc main() {\n%s\n}\n" % ("\n".join(imports), "\n".join(calls)))
-    rc, so, se = vlib.run([vlib.GO, "build", "-p", "4", "-gcflags=-e", "-o", "prog", "."], cwd=bdir, env=vlib.go_env(), timeout=900)
+    rc, so, se = vlib.run([vlib.GO, "build", "-p", "6", "-gcflags=-e", "-o", "prog", "."], cwd=bdir, env=vlib.go_env(), timeout=900)
     if rc != 0:
         raise vlib.HarnessError("the Go toolchain rejects a program of batch %s (generator/corpus bug, not a case):\n%s" % (bdir, (so + se)[-3000:]))
     rc, so, se = vlib.run([os.path.join(bdir, "prog")], cwd=bdir, timeout=300)
@@ -1705,7 +1737,8 @@ def build_and_run_batch(ctx, bdir, progs):
     return res
 
 
-def dump_ir(ctx, dumpbin, pdir, prog, modes=MODES):
+def dump_ir(ctx, dumpbin, pdir, prog, modes=None):
+    modes = modes or prog.modes
     os.makedirs(pdir, exist_ok=True)
     a, b = os.path.join(pdir, "prog.go"), os.path.join(pdir, "stub.go")
     with open(a, "w") as f:
@@ -1765,30 +1798,430 @@ def dump_stats(lines):
     return out
 
 
+# =========================================================================== stage B: certificate inference (untrusted)
+class DIns:
+    __slots__ = ("id", "kind", "ty", "ops", "attrs", "comment")
+
+    def __init__(self, id, kind, ty, ops, attrs, comment):
+        self.id, self.kind, self.ty, self.ops, self.attrs, self.comment = id, kind, ty, ops, attrs, comment
+
+
+class DBlock:
+    def __init__(self, preds, succs):
+        self.preds, self.succs, self.instrs = preds, succs, []
+
+
+class DFn:
+    def __init__(self, name, nparams, nfree, recover, external):
+        self.name, self.nparams, self.nfree, self.recover, self.external = name, nparams, nfree, recover, external
+        self.blocks = []
+        self.vals = {}     # vid -> (tid, [desc tokens])
+
+
+class DProg:
+    def __init__(self):
+        self.tkeys = {}
+        self.fns = {}
+        self.fnames = {}   # fid -> name
+        self.globals = {}
+
+
+def _unhex(h):
+    return "" if h == "-" else bytes.fromhex(h).decode("utf-8", "replace")
+
+
+def parse_dump(lines):
+    """{mode: DProg}"""
+    progs, cur, fn = {}, None, None
+    for l in lines:
+        t = l.split(" ")
+        k = t[0]
+        if k == "prog":
+            cur = DProg()
+            progs[t[1]] = cur
+        elif k == "tkey":
+            cur.tkeys[int(t[1])] = _unhex(t[2])
+        elif k == "global":
+            cur.globals[int(t[1])] = _unhex(t[2])
+        elif k == "func":
+            fn = DFn(_unhex(t[2]), int(t[3]), int(t[4]), None if t[6] == "-" else int(t[6]), t[8] == "1")
+            cur.fns[fn.name] = fn
+            cur.fnames[int(t[1])] = fn.name
+        elif k == "val":
+            fn.vals[int(t[2])] = (int(t[3]), t[4:])
+        elif k == "block":
+            np_ = int(t[3])
+            preds = [int(x) for x in t[4:4 + np_]]
+            ns = int(t[4 + np_])
+            succs = [int(x) for x in t[5 + np_:5 + np_ + ns]]
+            fn.blocks.append(DBlock(preds, succs))
+        elif k == "ins":
+            nops = int(t[6])
+            ops = [None if x == "-" else int(x) for x in t[7:7 + nops]]
+            na = int(t[7 + nops])
+            attrs = t[8 + nops:8 + nops + na]
+            fn.blocks[int(t[2])].instrs.append(DIns(int(t[3]), t[4], None if t[5] == "-" else int(t[5]), ops, attrs, t[-1]))
+    return progs
+
+
+class InferFail(Exception):
+    pass
+
+
+class Meta:
+    __slots__ = ("ref", "tag")
+
+    def __init__(self, tag):
+        self.ref = None
+        self.tag = tag
+
+
+def _resolve(x):
+    while isinstance(x, Meta) and x.ref is not None:
+        x = x.ref
+    return x
+
+
+class FnView:
+    """mirror of lean/Verif/C01/Abstract.lean (what is dropped, what denotes the own defer stack)"""
+
+    def __init__(self, prog, fn):
+        self.prog, self.fn = prog, fn
+        self.all = [i for b in fn.blocks for i in b.instrs]
+        self.uses = {}
+        for ins in self.all:
+            for pos, o in enumerate(ins.ops):
+                if o is not None:
+                    self.uses.setdefault(o, []).append((ins, pos))
+        self.dropped, self.own, self.escapes = set(), set(), False
+        self._ds()
+        self.has_defer = any(i.kind == "defer" for i in self.all)
+        self.drop_rundefers = (not self.has_defer) and (not self.escapes)
+
+    def private(self, v):
+        return all((i.kind == "load" and p == 0) or (i.kind == "store" and p == 0) or i.kind == "debugref" for i, p in self.uses.get(v, []))
+
+    def _ds(self):
+        calls = [i for i in self.all if i.kind == "call" and i.attrs[:1] == ["builtin"] and _unhex(i.attrs[1]) == "ssa:deferstack"]
+        if not calls:
+            return
+        if len(calls) > 1:
+            self.escapes = True
+            return
+        d = calls[0]
+        us = self.uses.get(d.id, [])
+        direct = lambda u: u[0].kind == "defer" and u[1] + 1 == len(u[0].ops)
+        stores = [u for u in us if not direct(u)]
+        cells = []
+        for (i, p) in stores:
+            c = i.ops[0] if (i.kind == "store" and p == 1) else None
+            if c not in cells:
+                cells.append(c)
+        if not cells:
+            self.dropped, self.own = {d.id}, {d.id}
+            return
+        if len(cells) != 1 or cells[0] is None:
+            self.escapes = True
+            return
+        c = cells[0]
+        is_alloc = any(i.id == c and i.kind == "alloc" for i in self.all)
+        cu = self.uses.get(c, [])
+        stores_ok = all((i.ops[1] == d.id) if (i.kind == "store" and p == 0) else True for i, p in cu)
+        loads = [i for i, p in cu if i.kind == "load" and p == 0]
+        loads_ok = all(all(direct(u) for u in self.uses.get(l.id, [])) for l in loads)
+        if is_alloc and self.private(c) and stores_ok and loads_ok:
+            self.dropped = {d.id, c} | {i.id for i, p in cu if i.kind != "debugref"}
+            self.own = {d.id} | {l.id for l in loads}
+        else:
+            self.escapes = True
+
+    def tkey(self, tid):
+        return self.prog.tkeys.get(tid, "?%s" % tid)
+
+    def canon(self, v):
+        """canonical symbolic value of operand vid (None = absent)"""
+        if v is None:
+            return ("k", "absent")
+        if v in self.own:
+            return ("k", "deferstack:own")
+        tid, desc = self.fn.vals.get(v, (None, None))
+        if desc is None or desc[0] in ("param", "free"):
+            return ("r", v)
+        tk = self.tkey(tid)
+        if desc[0] == "const":
+            if desc[1] == "nil" or (desc[1] == "int" and desc[2] == "0") or (desc[1] == "bool" and desc[2] == "0") or (desc[1] == "str" and desc[2] == "-"):
+                return ("k", "zero", tk)
+            return ("k", "const", tk) + tuple(desc[1:])
+        if desc[0] == "global":
+            return ("k", "global", self.prog.globals.get(int(desc[1])))
+        if desc[0] == "func":
+            return ("k", "func", self.prog.fnames.get(int(desc[1])))
+        if desc[0] == "builtin":
+            return ("k", "builtin", desc[1], tk)
+        return ("k", "foreign", v)
+
+    def blocks(self):
+        """per block: (phis, body, term) with the dropped instructions removed"""
+        out = []
+        for b in self.fn.blocks:
+            phis, body, term = [], [], None
+            for i in b.instrs:
+                if i.kind == "debugref" or i.id in self.dropped:
+                    continue
+                if i.kind == "rundefers" and self.drop_rundefers:
+                    continue
+                if i.kind == "phi":
+                    phis.append(i)
+                elif i.kind in ("jump", "if", "constantswitch", "unreachable", "return", "panic"):
+                    term = i
+                else:
+                    body.append(i)
+            out.append((phis, body, term))
+        return out
+
+
+def alloc_key(v, i):
+    return (i.attrs[0], v.tkey(i.ty), i.comment)
+
+
+def infer_lift(pN, pL, name):
+    """returns ('ok', cells, rho, maps, info) | ('skip', reason) for function `name` of the naive
+    program pN and the lifted program pL.  Everything returned is untrusted input of the validator."""
+    fN, fL = pN.fns[name], pL.fns[name]
+    if fN.external or fL.external:
+        return ("skip", "external")
+    if len(fN.blocks) != len(fL.blocks):
+        raise InferFail("number of blocks differs")
+    vN, vL = FnView(pN, fN), FnView(pL, fL)
+    if any(i.kind == "alloc" and i.comment == HEX_SPLIT for i in vL.all):
+        return ("skip", "split-alloc")
+    bN, bL = vN.blocks(), vL.blocks()
+    # ---- which naive Allocs were lifted away: match the Alloc subsequences of each block
+    cells = set()
+    for bi in range(len(bN)):
+        aN = [i for i in bN[bi][1] if i.kind == "alloc"]
+        aL = [i for i in bL[bi][1] if i.kind == "alloc"]
+        j = 0
+        for a in aN:
+            if j < len(aL) and alloc_key(vN, a) == alloc_key(vL, aL[j]):
+                j += 1
+            elif vN.private(a.id):
+                cells.add(a.id)
+            else:
+                # an Alloc whose address is stored into another local that was itself lifted (several
+                # rounds of lift): outside the validated fragment
+                return ("skip", "indirect-alloc")
+        if j != len(aL):
+            raise InferFail("block %d: lifted function has an Alloc without counterpart" % bi)
+
+    def is_cell_access(i):
+        return (i.kind == "alloc" and i.id in cells) or (i.kind in ("load", "store") and i.ops[0] in cells)
+
+    # ---- register relation by lock step
+    rho = {i: i for i in range(fN.nparams + fN.nfree)}
+    pairs = []   # per block: list of (naive ins, lifted ins or None)
+    for bi in range(len(bN)):
+        pn, bodyN, tn = bN[bi]
+        pl, bodyL, tl = bL[bi]
+        if len(pl) < len(pn):
+            raise InferFail("block %d: fewer phis after lifting" % bi)
+        for a, b in zip(pn, pl[len(pl) - len(pn):]):
+            rho[a.id] = b.id
+        j, pr = 0, []
+        for i in bodyN:
+            if is_cell_access(i):
+                pr.append((i, None))
+                continue
+            if j >= len(bodyL) or bodyL[j].kind != i.kind or len(bodyL[j].ops) != len(i.ops):
+                raise InferFail("block %d: naive %s (v%d) has no counterpart at position %d" % (bi, i.kind, i.id, j))
+            rho[i.id] = bodyL[j].id
+            pr.append((i, bodyL[j]))
+            j += 1
+        if j != len(bodyL):
+            raise InferFail("block %d: lifted block has %d extra instruction(s), first %s" % (bi, len(bodyL) - j, bodyL[j].kind))
+        if (tn is None) != (tl is None) or (tn is not None and (tn.kind != tl.kind or len(tn.ops) != len(tl.ops))):
+            raise InferFail("block %d: terminators differ" % bi)
+        pairs.append(pr)
+
+    # ---- entry maps by unification
+    entry = [dict() for _ in bN]   # key -> Meta
+    conflicts = []
+
+    def E(bi, key):
+        m = entry[bi].get(key)
+        if m is None:
+            m = entry[bi][key] = Meta((bi, key))
+        return m
+
+    def unify(a, b):
+        a, b = _resolve(a), _resolve(b)
+        if a is b:
+            return False
+        if isinstance(a, Meta):
+            a.ref = b
+            return True
+        if isinstance(b, Meta):
+            b.ref = a
+            return True
+        if a != b:
+            conflicts.append((a, b))
+        return False
+
+    outs = []
+    changed = [False]
+
+    def walk(bi):
+        env = {}
+
+        def read(key):
+            return env[key] if key in env else E(bi, key)
+
+        def trsym(o):
+            c = vN.canon(o)
+            if c[0] == "r":
+                if c[1] in rho:
+                    return ("r", rho[c[1]])
+                return read(("l", c[1]))
+            return c
+
+        for (i, l) in pairs[bi]:
+            if l is None:
+                if i.kind == "alloc":
+                    env[("c", i.id)] = ("k", "zero", vN.tkey_elem(i))
+                elif i.kind == "store":
+                    env[("c", i.ops[0])] = trsym(i.ops[1])
+                else:
+                    env[("l", i.id)] = read(("c", i.ops[0]))
+            else:
+                for on, ol in zip(i.ops, l.ops):
+                    if unify(trsym(on), vL.canon(ol)):
+                        changed[0] = True
+        tn, tl = bN[bi][2], bL[bi][2]
+        if tn is not None:
+            for on, ol in zip(tn.ops, tl.ops):
+                if unify(trsym(on), vL.canon(ol)):
+                    changed[0] = True
+        return env, trsym
+
+    FnView.tkey_elem = lambda self, i: _elem_key(self, i)
+    for bi in range(len(bN)):
+        outs.append(walk(bi))
+
+    def out_of(p, key):
+        env, _ = outs[p]
+        return env[key] if key in env else E(p, key)
+
+    lphis = [{p.id: p for p in bL[bi][0]} for bi in range(len(bL))]
+    for _round in range(4 * len(bN) + 8):
+        changed[0] = False
+        for bi in range(len(bN)):
+            preds = fN.blocks[bi].preds
+            npn = len(bN[bi][0])
+            oldL = bL[bi][0][len(bL[bi][0]) - npn:] if npn else []
+            for k, p in enumerate(preds):
+                if preds.index(p) != k:
+                    continue
+                _, trp = outs[p]
+                for a, b in zip(bN[bi][0], oldL):
+                    if unify(trp(a.ops[k]), vL.canon(b.ops[k])):
+                        changed[0] = True
+                for key, m in list(entry[bi].items()):
+                    v = _resolve(m)
+                    if isinstance(v, Meta):
+                        continue
+                    if v[0] == "r" and v[1] in lphis[bi]:
+                        want = vL.canon(lphis[bi][v[1]].ops[k])
+                    else:
+                        want = v
+                    if unify(out_of(p, key), want):
+                        changed[0] = True
+        if not changed[0]:
+            break
+
+    # ---- emit
+    const_vid = {}
+    for v, (tid, desc) in fL.vals.items():
+        c = vL.canon(v)
+        if c[0] == "k":
+            const_vid.setdefault(c, v)
+    maps = []
+    for bi in range(len(bN)):
+        ent = []
+        if bi != 0 and bi != fN.recover:
+            for key, m in sorted(entry[bi].items()):
+                v = _resolve(m)
+                if isinstance(v, Meta):
+                    continue
+                vid = v[1] if v[0] == "r" else const_vid.get(v)
+                if vid is None:
+                    continue
+                ent.append("%s%d:%d" % (key[0], key[1], vid))
+        maps.append("m=" + ";".join(ent))
+    info = {"cells": len(cells), "new_phis": sum(len(bL[bi][0]) - len(bN[bi][0]) for bi in range(len(bN))), "conflicts": len(conflicts)}
+    return ("ok", sorted(cells), sorted(rho.items()), maps, info)
+
+
+def _elem_key(view, i):
+    # the dumper's key of a pointer type is "*" + key of the element
+    k = view.tkey(i.ty)
+    return k[1:] if k.startswith("*") else k
+
+
+def lift_line(mN, mL, name, cells, rho, maps):
+    return "LIFT %s %s %s c=%s r=%s %s" % (mN, mL, vlib.hexs(name), ",".join(map(str, cells)),
+                                           ",".join("%d:%d" % ab for ab in rho), " ".join(maps))
+
+
+def lift_jobs(dump):
+    """[(mN, mL, function name, status, driver line or None, info)] for every function of the dump"""
+    progs = parse_dump(dump)
+    jobs = []
+    for (mN, mL) in (("N", "L"), ("ND", "LD"), ("NI", "LI")):
+        if mN not in progs or mL not in progs:
+            continue
+        pN, pL = progs[mN], progs[mL]
+        for name in pN.fns:
+            if name not in pL.fns:
+                jobs.append((mN, mL, name, "infer-fail", None, "function missing in the lifted program"))
+                continue
+            try:
+                r = infer_lift(pN, pL, name)
+            except InferFail as e:
+                jobs.append((mN, mL, name, "infer-fail", None, str(e)))
+                continue
+            if r[0] == "skip":
+                jobs.append((mN, mL, name, "skip-" + r[1], None, None))
+            else:
+                jobs.append((mN, mL, name, "check", lift_line(mN, mL, name, r[1], r[2], r[3]), r[4]))
+    return jobs
+
+
 # =========================================================================== stage A
 def classify_case(go, by_mode):
-    """compare the compiled program's line with the four interpreted ones.
-    returns (status, detail) with status in agree | skip | fuel | diff"""
-    st = "agree"
-    bad = {}
+    """compare the compiled program's line with the interpreted ones.
+    returns (status, detail): diff if some mode disagrees; agree if at least one mode was executed and
+    all executed modes agree; otherwise skip / fuel"""
+    bad, nag, nskip, nfuel = {}, 0, 0, 0
     for m, lo in by_mode.items():
         if "|SKIP " in lo:
-            if st == "agree":
-                st = "skip"
+            nskip += 1
             bad[m] = lo.split("|")[1]
         elif "|FUEL|" in lo:
-            if st in ("agree", "skip"):
-                st = "fuel"
+            nfuel += 1
         elif lo != go:
-            st = "diff"
-            bad[m] = lo
-    return st, bad
+            return "diff", {m: lo}
+        else:
+            nag += 1
+    if nag:
+        return "agree", bad
+    return ("fuel" if nfuel else "skip"), bad
 
 
 def explain_diff(go, by_mode):
     n, l = by_mode.get("N"), by_mode.get("L")
-    okN = all(by_mode.get(m) == go for m in ("N", "ND") if m in by_mode)
-    okL = all(by_mode.get(m) == go for m in ("L", "LD") if m in by_mode)
+    ex = {m: v for m, v in by_mode.items() if "|SKIP " not in v and "|FUEL|" not in v}
+    okN = all(v == go for m, v in ex.items() if m.startswith("N"))
+    okL = all(v == go for m, v in ex.items() if m.startswith("L"))
     if okN and not okL:
         return "lifting: the naive IR behaves like the compiled program, the lifted IR does not (go/ir/lift.go)"
     if okL and not okN:
@@ -1798,53 +2231,97 @@ def explain_diff(go, by_mode):
     return "naive and lifted IR differ from the compiled program in different ways"
 
 
-def stage_a(ctx, dumpbin, progs, tag, workers=6, batch=8):
-    """runs all programs; returns list of per-program result dicts"""
+TIMES = {}
+
+
+def ir_side(ctx, dumpbin, pdir, pr):
+    """dump the IR of one program in its modes, run every case through the Lean interpreter and every
+    function through the lift validator; returns (per case {mode: line}, lift results, stats)"""
+    import time as _t
+    t0 = _t.time()
+    dump = dump_ir(ctx, dumpbin, pdir, pr)
+    TIMES["c01dump"] = TIMES.get("c01dump", 0) + _t.time() - t0
+    lines = list(dump)
+    for m in pr.modes:
+        for (fname, pt, rt, vec) in pr.cases:
+            lines.append(case_line(m, fname, vec))
+    t0 = _t.time()
+    jobs = lift_jobs(dump)
+    TIMES["infer"] = TIMES.get("infer", 0) + _t.time() - t0
+    lines += [j[4] for j in jobs if j[4] is not None]
+    t0 = _t.time()
+    out = run_driver(lines)
+    TIMES["c01driver"] = TIMES.get("c01driver", 0) + _t.time() - t0
+    nd = len(dump)
+    badrec = [i for i in range(nd) if out[i] != "ok"]
+    if badrec:
+        raise vlib.HarnessError("c01driver rejects dump record of %s: %s" % (pr.name, dump[badrec[0]][:300]))
+    nc = len(pr.cases)
+    by_case = []
+    for ci, c in enumerate(pr.cases):
+        by_mode = {m: out[nd + mi * nc + ci] for mi, m in enumerate(pr.modes)}
+        if any(v == "bad-op" for v in by_mode.values()):
+            raise vlib.HarnessError("c01driver rejects RUN line of %s %s" % (pr.name, show_case(c)))
+        by_case.append(by_mode)
+    lo = out[nd + len(pr.modes) * nc:]
+    lift, li = [], 0
+    for (mN, mL, name, st, line, info) in jobs:
+        ans = None
+        if line is not None:
+            ans = lo[li]
+            li += 1
+            if ans == "bad-op":
+                raise vlib.HarnessError("c01driver rejects LIFT line of %s %s: %s" % (pr.name, name, line[:300]))
+        lift.append({"modes": mN + "/" + mL, "function": name, "status": st, "answer": ans, "info": info})
+    return by_case, lift, dump_stats(dump)
+
+
+def stage_a(ctx, dumpbin, progs, tag, workers=6, batch=40):
+    """runs all programs: the compiled side (one binary per batch of programs) and the IR side (dump,
+    Lean interpreter, lift validator) run concurrently; returns a list of per-program result dicts"""
     from concurrent.futures import ThreadPoolExecutor
+    import time as _t
     batches = [progs[i:i + batch] for i in range(0, len(progs), batch)]
 
-    def do_batch(bi):
-        bdir = ctx.path(tag, "b%d" % bi, "x")
-        bdir = os.path.dirname(bdir)
-        go_out = build_and_run_batch(ctx, bdir, batches[bi])
-        res = []
-        for pi, pr in enumerate(batches[bi]):
-            dump = dump_ir(ctx, dumpbin, os.path.join(bdir, "ir%d" % pi), pr)
-            lines = list(dump)
-            for m in MODES:
-                for (fname, pt, rt, vec) in pr.cases:
-                    lines.append(case_line(m, fname, vec))
-            lines += lift_lines(pr, dump)
-            out = run_driver(lines)
-            nd = len(dump)
-            badrec = [i for i in range(nd) if out[i] != "ok"]
-            if badrec:
-                raise vlib.HarnessError("c01driver rejects dump record of %s: %s" % (pr.name, dump[badrec[0]][:300]))
-            nc = len(pr.cases)
-            cases = []
-            for ci, c in enumerate(pr.cases):
-                by_mode = {m: out[nd + mi * nc + ci] for mi, m in enumerate(MODES)}
-                if any(v == "bad-op" for v in by_mode.values()):
-                    raise vlib.HarnessError("c01driver rejects RUN line of %s %s" % (pr.name, show_case(c)))
-                st, bad = classify_case(go_out[pr.name][ci], by_mode)
-                cases.append((st, go_out[pr.name][ci], by_mode))
-            lift = out[nd + len(MODES) * nc:]
-            res.append({"prog": pr, "cases": cases, "stats": dump_stats(dump), "lift": lift})
-        return res
+    def go_side(bi):
+        t0 = _t.time()
+        r = build_and_run_batch(ctx, os.path.dirname(ctx.path(tag, "b%d" % bi, "x")), batches[bi])
+        TIMES["go_build_run"] = TIMES.get("go_build_run", 0) + _t.time() - t0
+        return r
 
     with ThreadPoolExecutor(max_workers=workers) as ex:
-        rs = list(ex.map(do_batch, range(len(batches))))
-    return [r for b in rs for r in b]
-
-
-def lift_lines(prog, dump):
-    """driver lines of stage B (the lift validator); filled in below"""
-    return []
+        gof = [ex.submit(go_side, bi) for bi in range(len(batches))]
+        irf = [ex.submit(ir_side, ctx, dumpbin, os.path.dirname(ctx.path(tag, "ir_%s" % pr.name, "x")), pr) for pr in progs]
+        go_out = {}
+        for f in gof:
+            go_out.update(f.result())
+        irs = [f.result() for f in irf]
+    res = []
+    for pr, (by_case, lift, stats) in zip(progs, irs):
+        cases = []
+        for ci, c in enumerate(pr.cases):
+            st, bad = classify_case(go_out[pr.name][ci], by_case[ci])
+            cases.append((st, go_out[pr.name][ci], by_case[ci]))
+        res.append({"prog": pr, "cases": cases, "stats": stats, "lift": lift})
+    return res
 
 
 # =========================================================================== the check
 MODULES = ["Verif.C01.Theorems"]
-THEOREMS = []
+THEOREMS = [
+    "Verif.C01.lift_validator_sound_partial",
+    "Verif.C01.Core.run_sim",
+    "Verif.C01.Core.walk_sound",
+    "Verif.C01.Core.enter_sound",
+    "Verif.C01.wrapInt_congr",
+    "Verif.C01.wrapInt_signed_range",
+    "Verif.C01.wrapInt_unsigned_range",
+    "Verif.C01.wrapInt_id_signed",
+    "Verif.C01.quo_by_zero_panics",
+    "Verif.C01.rem_by_zero_panics",
+    "Verif.C01.shl_large_is_zero",
+    "Verif.C01.shift_negative_panics",
+]
 
 CORPUS_DIR = os.path.join(vlib.VERIF, "corpus", "C01")
 
@@ -1868,7 +2345,7 @@ def replay_obj(pr, ci, go, by_mode, why):
         "vector": [[k, v] for (k, v) in c[3]],
         "compiled_program": go, "interpreted_ir": by_mode,
         "format": "<observer calls in order>|<RET results / PANIC class>|<final globals>",
-        "global_inits": [list(g) for g in pr.global_inits],
+        "global_inits": [list(g) for g in pr.global_inits], "resets": [list(g) for g in pr.resets], "modes": pr.modes,
         "how_to_replay": "./check C01 --replay <this file>   (rebuilds the source below with `go build`, dumps the IR of the "
                          "current tree with harness/cmd/c01dump in the modes N,L,ND,LD and runs lean/.lake/build/bin/c01driver on it)",
         "source": pr.src,
@@ -1878,8 +2355,11 @@ def replay_obj(pr, ci, go, by_mode, why):
 def program_from_replay(obj):
     vec = [tuple(x) for x in obj["vector"]]
     case = (obj["function"], obj["param_types"], obj["result_types"], vec)
-    return Program(obj["program"], obj["source"], [tuple(g) for g in obj["global_inits"]],
-                   [(obj["function"], obj["param_types"], obj["result_types"])], [case], obj.get("origin", {}))
+    pr = Program(obj["program"], obj["source"], [tuple(g) for g in obj["global_inits"]],
+                 [(obj["function"], obj["param_types"], obj["result_types"])], [case], obj.get("origin", {}))
+    pr.resets = [tuple(g) for g in obj.get("resets", [])]
+    pr.modes = obj.get("modes", list(MODES))
+    return pr
 
 
 def run(ctx):
@@ -1897,12 +2377,11 @@ def run(ctx):
     else:
         nvec = 6 if ctx.quick else 8
         corpus = load_corpus(nvec)
-        nprog = 10 if ctx.quick else 150
+        nprog = 6 if ctx.quick else 150
         rng = vlib.SplitMix(ctx.seed)
         gen = [program_from_seed("gen%d" % i, rng.fork("prog%d" % i).s, nvec) for i in range(nprog)]
     t0 = time.time()
-    results = stage_a(ctx, dumpbin, corpus, "corpus", workers=3, batch=max(1, (len(corpus) + 2) // 3)) if corpus else []
-    results += stage_a(ctx, dumpbin, gen, "gen", workers=5 if ctx.quick else 6, batch=2 if ctx.quick else 6) if gen else []
+    results = stage_a(ctx, dumpbin, corpus + gen, "run", workers=6, batch=40)
     t_a = time.time() - t0
 
     # ---- classify
@@ -1955,23 +2434,84 @@ def run(ctx):
                               text="C01: %s %s: compiled %r, IR %s" % (pr.name, show_case(pr.cases[ci]), go[-160:],
                                                                        {m: v[-160:] for m, v in by_mode.items() if v != go}) + "\n" + why)
 
+    # ---- stage B: the proved validator on every dumped function
+    lift_counts = {}
+    lift_bad = []
+    lift_cells = 0
+    lift_phis = 0
+    for r in results:
+        for l in r["lift"]:
+            a = l["answer"]
+            if a is None:
+                k = l["status"]
+            elif a == "lift ok":
+                k = "validated"
+                lift_cells += l["info"]["cells"]
+                lift_phis += l["info"]["new_phis"]
+            else:
+                k = "rejected"
+            lift_counts[k] = lift_counts.get(k, 0) + 1
+            if k in ("rejected", "infer-fail"):
+                lift_bad.append((r, l))
+    if lift_bad:
+        # a function whose lifted form the validator cannot relate to its naive form.  Stage A has
+        # already run every entry function in both forms; look for a failing input with more vectors.
+        by_prog = {}
+        for (r, l) in lift_bad:
+            by_prog.setdefault(r["prog"].name, (r, []))[1].append(l)
+        for pname, (r, ls) in sorted(by_prog.items()):
+            pr = r["prog"]
+            has_diff = any(st == "diff" for (st, _, _) in r["cases"])
+            found = has_diff
+            if not has_diff and not ctx.replay:
+                more = search_program(ctx, dumpbin, pr, 40 if ctx.quick else 120)
+                for r2 in more:
+                    for ci, (st, go, by_mode) in enumerate(r2["cases"]):
+                        if st == "diff" and not found:
+                            found = True
+                            obj = replay_obj(r2["prog"], ci, go, by_mode, explain_diff(go, by_mode))
+                            obj["validator"] = [{k: v for k, v in l.items()} for l in ls[:8]]
+                            ctx.violation("stageB_%s_%s.json" % (pname, r2["prog"].cases[ci][0]), obj,
+                                          text="C01: lift validator rejects %s of %s and a failing input exists: %s" % (
+                                              ls[0]["function"], pname, show_case(r2["prog"].cases[ci])))
+            if not found:
+                l = ls[0]
+                ctx.violation("stageB_%s_%s.json" % (pname, l["function"].replace("/", "_").replace("$", "_").replace("*", "_")), {
+                    "what": "the proved lift validator (Core.liftCheck, theorem lift_validator_sound_partial) does not accept the lifted "
+                            "form of this function as equivalent to its naive form, and no input was found on which they differ",
+                    "rejected": [{k: v for k, v in x.items()} for x in ls[:12]],
+                    "program": pr.name, "origin": pr.origin, "global_inits": [list(g) for g in pr.global_inits],
+                    "correspondence": "stage B: c01dump (N,L,ND,LD) -> Abstract.toCore -> Core.liftCheck",
+                    "how_to_replay": "write `source` to prog.go, add the stub of checks/c01.py, run harness/cmd/c01dump -modes N,L,ND,LD and feed "
+                                     "the dump plus the LIFT line (checks/c01.py: lift_jobs) to lean/.lake/build/bin/c01driver",
+                    "source": pr.src,
+                }, nofail=True, text="C01: lift validator: %s %s: %s" % (pname, l["function"], l["answer"] or l["info"]))
+
     total = sum(counts.values())
+    nlift = sum(lift_counts.values())
     ctx.coverage.update({
         "programs": len(results),
         "functions_dumped_per_mode": fn_total,
-        "evaluations": total * len(MODES),
+        "evaluations": total * len(MODES) + nlift,
         "cases": total,
         "case_status": counts,
         "skip_reasons": dict(sorted(skip_reasons.items(), key=lambda kv: -kv[1])[:12]),
-        "disagreements_checked": counts["diff"],
+        "disagreements_checked": counts["diff"] + lift_counts.get("rejected", 0) + lift_counts.get("infer-fail", 0),
+        "lift_validator": dict(sorted(lift_counts.items())),
+        "lift_validator_note": "pairs (naive, lifted) x {debug off, on}; validated = Core.liftCheck accepted (then equal behaviour for all inputs by "
+                               "lift_validator_sound_partial); skip-split-alloc / skip-indirect-alloc = outside the validated fragment "
+                               "(covered by differential execution only); skip-external = no body",
+        "lift_validated_private_cells": lift_cells,
+        "lift_validated_new_phis": lift_phis,
         "distinct_nontrivial": len(nontrivial),
         "rule": "seeded generator of type-correct Go programs (24 entry functions + 6 helpers each) plus the hand-written corpus; "
                 "every entry function is run on its input vectors compiled by the Go toolchain and interpreted from the IR dumps of "
-                "the modes N, L, ND, LD; non-trivial = function whose lifted form has a new phi, a split alloc or a recover block; "
-                "distinct = by the sequence of (instruction kind, block) of its lifted dump",
+                "the modes N, L, ND, LD; every dumped function also goes through the lift validator; non-trivial = function whose lifted "
+                "form has a new phi, a split alloc or a recover block; distinct = by the sequence of (instruction kind, block) of its lifted dump",
         "instruction_kinds_seen": dict(sorted(kinds.items())),
         "samples": samples,
         "stage_a_wall_s": round(t_a, 1),
+        "cpu_phase_s(summed over workers)": {k: round(v, 1) for k, v in TIMES.items()},
     })
     ctx.assumptions += [
         "the Go toolchain (go1.26 gc) is the reference for source semantics; where the spec leaves evaluation order open the generator avoids the construct",
@@ -1981,6 +2521,18 @@ def run(ctx):
     if not lean_ok and not ctx.violations:
         ctx.violation("lean.json", {"what": "the Lean side of C01 no longer builds / audits", "lean": lean_broke}, nofail=True)
     return vlib.finish(ctx, "translation_validation")
+
+
+def search_program(ctx, dumpbin, pr, nvec):
+    """violation search for one program: every entry function on `nvec` fresh input vectors"""
+    vg = PGen.__new__(PGen)
+    vg.rng = vlib.SplitMix(ctx.seed).fork("search/" + pr.name)
+    cases = []
+    for (fname, pt, rt) in pr.entries:
+        for vec in PGen.vectors(vg, pt, nvec):
+            cases.append((fname, pt, rt, vec))
+    p2 = Program(pr.name + "_search", pr.src, pr.global_inits, pr.entries, cases, pr.origin)
+    return stage_a(ctx, dumpbin, [p2], "search_" + pr.name, workers=2, batch=1)
 
 
 def finding_key(pr, fname, obj):
